@@ -149,9 +149,10 @@ def execute(roles, copies, rot, order):
     for i, role in enumerate(roles):
         ip = f"10.2.0.{i + 10}"
         dg = good_datagram(i, ip) if role == "good" else bad_datagram(role, ip, rot + i)
-        # replies come from the port the host listens on, from the device's TCP port, or from an ephemeral port
+        # replies come from the port the host listens on, from the device's TCP port, from an ephemeral port, or carry no
+        # source port at all (0: RFC 768 makes the field optional)
         hosts.append(sd.Host(ip, dg, listen_port=6445 if (i + rot) % 2 == 0 else 20086, copies=copies[i],
-                             src_port=(6445, 20086, 6444, 51234)[(i + rot) % 4]))
+                             src_port=(6445, 20086, 6444, 51234, 0)[(i + rot) % 5]))
     w.net.udp_responder = sd.Population(hosts, order=list(order))
     try:
         # every other configuration scans with the subnet-directed broadcast address instead of 255.255.255.255
